@@ -27,12 +27,22 @@ func Replay(path string, out io.Writer) int {
 		Raw     *Op             `json:"raw"`
 		Ops     []Op            `json:"ops"`
 	}
-	sc := bufio.NewScanner(f)
-	sc.Buffer(make([]byte, 1<<20), 1<<28)
 	var ops []Op
 	profile := "main"
 	var hist uint64
-	for sc.Scan() {
+	if whole, err := os.ReadFile(path); err == nil {
+		var l line
+		if json.Unmarshal(whole, &l) == nil && len(l.Ops) > 0 {
+			if l.Profile != "" {
+				profile = l.Profile
+			}
+			hist = l.Hist
+			ops = l.Ops
+		}
+	}
+	sc := bufio.NewScanner(f)
+	sc.Buffer(make([]byte, 1<<20), 1<<28)
+	for len(ops) == 0 && sc.Scan() {
 		var l line
 		if err := json.Unmarshal(sc.Bytes(), &l); err != nil {
 			continue
